@@ -26,6 +26,7 @@ Streams: (1) rule-directed -- for every operator, arguments from shape classes t
 import ast
 import os
 import sys
+import time
 import warnings
 from fractions import Fraction
 from itertools import product
@@ -363,6 +364,73 @@ def ground_arith_cases(sh):
     return out
 
 
+def ground_string_cases(sh):
+    """ground string operators: every small integer offset / length (negative, zero, past the end) on a few
+    strings, alone and under an enclosing str.len / equality"""
+    m, u = sh.m, sh.u
+    ssym = u.syms[STRING][0]
+    strs = ["", "a", "ab", "abcdef", "0", "aXa"]
+    rng17 = range(-8, 9)
+    coarse = (-3, -1, 0, 1, 2, 8)
+    out = []
+    k = 0
+
+    def emit(name, t, string_valued):
+        nonlocal k
+        k += 1
+        out.append(("rule:" + name, t))
+        if string_valued:
+            if k % 2 == 0:
+                out.append(("rule:" + name, m.StrLength(t)))
+            if k % 3 == 0:
+                out.append(("rule:" + name, m.Equals(ssym, t)))
+        elif k % 3 == 0:
+            out.append(("rule:" + name, m.Not(t) if t.get_type().is_bool_type() else m.LE(t, m.Int(1))))
+    for st in strs:
+        full = st in ("abcdef", "ab")
+        for i in rng17:
+            emit("strCharAt", m.StrCharAt(m.String(st), m.Int(i)), True)
+            for n in (rng17 if full else coarse):
+                if full or i in (-2, 0, 1, 3):
+                    emit("strSubstr", m.StrSubstr(m.String(st), m.Int(i), m.Int(n)), True)
+            for t in ("", "a", "f", "ab"):
+                emit("strIndexOf", m.StrIndexOf(m.String(st), m.String(t), m.Int(i)), False)
+        for t in ("", "a", "ab", "X"):
+            for t2 in ("", "b", "aa"):
+                emit("strReplace", m.StrReplace(m.String(st), m.String(t), m.String(t2)), True)
+        for t in strs:
+            emit("strPrefixOf", m.StrPrefixOf(m.String(st), m.String(t)), False)
+            emit("strSuffixOf", m.StrSuffixOf(m.String(st), m.String(t)), False)
+            emit("strContains", m.StrContains(m.String(st), m.String(t)), False)
+    return out
+
+
+def coeff_sum_cases(sh):
+    """sums / differences over products whose constant factor is first or last: walk_plus inspects the LAST factor
+    of a product, walk_times orders factors by node id -- the constants are created here, after the symbols, and
+    products are also reached through Div by a real constant"""
+    m, u = sh.m, sh.u
+    x, y = u.syms[INT][0], u.syms[INT][1]
+    a, b = u.syms[REAL]
+    out = []
+    rcs = [Fraction(-2), Fraction(-1), Fraction(-3, 4), Fraction(-1, 2), Fraction(-1, 3), Fraction(1, 2), Fraction(1),
+           Fraction(3)]
+    ics = [-2, -1, 1, 3]
+    for c in rcs:
+        prods = [m.Times(b, m.Real(c)), m.Times(m.Real(c), b), m.Times(a, b, m.Real(c)), m.Div(b, m.Real(1 / c))]
+        for pr in prods:
+            for f in (m.Plus(a, pr), m.Plus(pr, a), m.Minus(a, pr), m.Minus(pr, a), m.Plus(pr, pr),
+                      m.Plus(a, pr, m.Real(1)), m.LE(m.Plus(a, pr), m.Real(0)), m.Plus(pr, m.Times(a, m.Real(c)))):
+                out.append(("rule:plus", f))
+    for c in ics:
+        prods = [m.Times(y, m.Int(c)), m.Times(m.Int(c), y), m.Times(x, y, m.Int(c))]
+        for pr in prods:
+            for f in (m.Plus(x, pr), m.Plus(pr, x), m.Minus(x, pr), m.Minus(pr, x), m.Plus(pr, pr),
+                      m.Plus(x, pr, m.Int(1)), m.LE(m.Plus(x, pr), m.Int(0)), m.Plus(pr, m.Times(x, m.Int(c)))):
+                out.append(("rule:plus", f))
+    return out
+
+
 def rnd2(rng, pals, k):
     return [tuple(rng.randrange(len(p)) for p in pals) for _ in range(k)]
 
@@ -639,14 +707,14 @@ def generate(ctx):
     for tag, f in quant_cases(sh, rng, 400 if quick else 6000):
         cases.append((tag, env, f))
     seen = set()
-    for tag, f in nested_bool_cases(sh) + ground_arith_cases(sh):
+    for tag, f in nested_bool_cases(sh) + ground_arith_cases(sh) + coeff_sum_cases(sh) + ground_string_cases(sh):
         if id(f) not in seen:
             seen.add(id(f))
             cases.append((tag, env, f))
     for tag, f in pow_probe(env):
         cases.append((tag, env, f))
     # random type-directed stream; a fresh environment every 400 formulas
-    n_rand = 3000 if quick else 60000
+    n_rand = 2500 if quick else 60000
     fg = None
     for i in range(n_rand):
         if i % 400 == 0:
@@ -669,11 +737,15 @@ def run(ctx):
     s_lines, k_lines, meta = [], [], []
     ophist = {}
     calls = []
+    t_run0 = time.time()
+    gen_limit = 45 if ctx.tier == "quick" else 500
     for (tag, env, f) in cases:
         record_calls(env.simplifier, calls)
-        if ctx.time_left() < 60:
-            ctx.count("generation_cut_by_budget")
-            break
+        # the budget of this loop is counted from the start of run(): a slow Lean build before it must never
+        # leave the check without cases; only the random stream (the last one) is ever cut
+        if tag == "random" and time.time() - t_run0 > gen_limit:
+            ctx.count("random_stream_cut_by_budget")
+            continue
         if binder_depth(f) > 6:
             ctx.count("skipped_more_than_6_nested_binders")
             continue
@@ -704,6 +776,8 @@ def run(ctx):
         k_lines.append("simp " + ef)
         meta.append((tag, f, g, ef, eg, its))
     cov.stop()
+    if not meta:
+        ctx.infra("C01 generated no case (budget exhausted before the search started)")
     ctx.extra["operator_histogram"] = dict(sorted(ophist.items(), key=lambda kv: -kv[1]))
     ctx.extra["walk_coverage"] = cov.report()
 
